@@ -51,23 +51,33 @@ fn int_of(sel: u8) -> V {
         n => V::Int(n as i32 - 1),
     }
 }
-fn str_of(sel: u8) -> V {
-    match sel % 4 {
-        0 => V::Null,
-        1 => V::Str("a".into()),
-        2 => V::Str("b".into()),
+fn str_of(sel: u8, lossy: bool) -> V {
+    match (sel % 4, lossy) {
+        (0, _) => V::Null,
+        // two different texts that a single-byte database code page stores
+        // as the same "?" (in two string-pool entries)
+        (1, true) => V::Str("\u{4e00}".into()),
+        (2, true) => V::Str("\u{4e01}".into()),
+        (1, false) => V::Str("a".into()),
+        (2, false) => V::Str("b".into()),
         _ => V::Str("ab".into()),
     }
 }
 
-fn table_rows(data: &[(u8, u8, u8)]) -> Vec<Vec<V>> {
+/// One case in four stores its strings under Windows-1252 and reopens the
+/// package before querying: equal texts then sit in different pool entries.
+fn lossy_mode(case: &Case) -> bool {
+    case.data[0].first().map_or(false, |r| r.0 >= 192)
+}
+
+fn table_rows(data: &[(u8, u8, u8)], lossy: bool) -> Vec<Vec<V>> {
     let mut rows: Vec<Vec<V>> = Vec::new();
     for (k, a, s) in data.iter().take(6) {
         let key = V::Int((*k % 6) as i32);
         if rows.iter().any(|r| r[0] == key) {
             continue;
         }
-        rows.push(vec![key, int_of(*a), str_of(*s)]);
+        rows.push(vec![key, int_of(*a), str_of(*s, lossy)]);
     }
     rows.sort();
     rows
@@ -287,14 +297,28 @@ fn exec(q: &Q, db: &[Vec<Vec<V>>; 3], stats: &mut (u32, u32, bool)) -> (Result<R
 }
 
 pub fn check_case(case: &Case, st: &mut Stats) -> Check {
-    let db: [Vec<Vec<V>>; 3] = [table_rows(&case.data[0]), table_rows(&case.data[1]), table_rows(&case.data[2])];
+    let lossy = lossy_mode(case);
+    let mut db: [Vec<Vec<V>>; 3] = [table_rows(&case.data[0], lossy), table_rows(&case.data[1], lossy), table_rows(&case.data[2], lossy)];
     let mut pkg = Package::create(PackageType::Installer, Cursor::new(Vec::new())).map_err(|e| Fail::new(format!("{P} unexpected-error op=Create"), e.to_string()))?;
+    if lossy {
+        pkg.set_database_codepage(msi::CodePage::Windows1252);
+    }
     for ti in 0..3 {
         let cols = vec![Column::build(COLS[ti][0]).primary_key().int16(), Column::build(COLS[ti][1]).nullable().int32(), Column::build(COLS[ti][2]).nullable().string(8)];
         pkg.create_table(TABLES[ti], cols).map_err(|e| Fail::new(format!("{P} unexpected-error op=CreateTable"), e.to_string()))?;
         if !db[ti].is_empty() {
             pkg.insert_rows(Insert::into(TABLES[ti]).rows(db[ti].iter().map(|r| r.iter().map(|v| v.to_msi()).collect()).collect())).map_err(|e| Fail::new(format!("{P} unexpected-error op=Insert"), e.to_string()))?;
         }
+    }
+    if lossy {
+        // the reference works on the base tables as they read after reopening
+        let cur = pkg.into_inner().map_err(|e| Fail::new(format!("{P} unexpected-error op=IntoInner"), e.to_string()))?;
+        pkg = Package::open(cur).map_err(|e| Fail::new(format!("{P} unexpected-error op=Reopen"), e.to_string()))?;
+        for ti in 0..3 {
+            let rows = pkg.select_rows(Select::table(TABLES[ti])).map_err(|e| Fail::new(format!("{P} unexpected-error op=SelectBase"), e.to_string()))?;
+            db[ti] = rows.map(|r| (0..r.len()).map(|i| V::from_msi(&r[i])).collect()).collect();
+        }
+        st.class("lossy-code-page:duplicate-pool-texts");
     }
     let mut counters = (0u32, 0u32, false);
     let (want, sel) = exec(&case.q, &db, &mut counters);
@@ -377,7 +401,7 @@ fn case_strategy(depth: u32) -> impl Strategy<Value = Case> {
 pub fn run(ctx: &Ctx) -> Report {
     let mut rep = Report::new(
         "exploration",
-        "select trees up to depth 3 (4 in thorough) over three base tables (one with a dotted name and a dotted column name), filters, projections, inner and left joins including joins of joins, joins of filtered and of projected sub-selects and self-joins, ON conditions over both sides' columns (late-bound to the documented table.column names), unknown table / column names injected in projection, filter and ON; table contents of 0..4 rows with nulls in join columns. Oracle: reference executor (naming rule, nested-loop order, null padding and nullability in left joins, filter, projection): column names, row order, values and nullability must match; unknown names must be reported as errors (also when a side is empty); no panic. Queries that refer to a duplicated column name are skipped (resolution undocumented). Non-trivial = a join with at least one matched and one unmatched pair; distinct by (query, data).",
+        "select trees up to depth 3 (4 in thorough) over three base tables (one with a dotted name and a dotted column name), filters, projections, inner and left joins including joins of joins, joins of filtered and of projected sub-selects and self-joins, ON conditions over both sides' columns (late-bound to the documented table.column names), unknown table / column names injected in projection, filter and ON; table contents of 0..4 rows with nulls in join columns; one case in four stores its strings under Windows-1252 (two different unrepresentable texts become the same '?' in two pool entries) and reopens before querying, the reference then works on the base tables as read back. Oracle: reference executor (naming rule, nested-loop order, null padding and nullability in left joins, filter, projection): column names, row order, values and nullability must match; unknown names must be reported as errors (also when a side is empty); no panic. Queries that refer to a duplicated column name are skipped (resolution undocumented). Non-trivial = a join with at least one matched and one unmatched pair; distinct by (query, data).",
     );
     let mut st = Stats::new();
     let depth = ctx.tier.pick(3, 4);
